@@ -83,6 +83,7 @@ macro_rules! wit_sym {
         w!($ra.len == 0 || $rb.len == 0, "an empty operand");
         w!($want != Ordering::Equal && $ra.v.trunc($k) == $rb.v.trunc($k), "unequal values that agree in their low word(s) and differ only above");
         w!($ra.len >= $rb.len + $k || $rb.len >= $ra.len + $k, "lengths differ by at least a whole word");
+        let _sep = nd::bool(); // keeps counterexample traces distinct from witness traces (playback dedupe)
     };
 }
 
@@ -93,6 +94,7 @@ macro_rules! wit_conc {
         w!($want == Ordering::Less, "a below b");
         w!($want == Ordering::Greater, "a above b");
         w!($want != Ordering::Equal && $ra.v.trunc($k) == $rb.v.trunc($k), "unequal values differing only above the low word");
+        let _sep = nd::bool(); // keeps counterexample traces distinct from witness traces (playback dedupe)
     };
 }
 
@@ -189,6 +191,7 @@ macro_rules! h_order3 {
             w!(ra.v.cmp(rb.v) == Ordering::Less && rb.v.cmp(rc.v) == Ordering::Less && ra.len > rb.len && rb.len > rc.len, "strictly increasing chain with decreasing lengths");
             w!(ra.v == rb.v && rb.v == rc.v && ra.len != rb.len && rb.len != rc.len && !ra.v.is_zero(), "three equal non-zero values of different lengths");
             w!(ra.v.cmp(rb.v) == Ordering::Greater && rb.v.cmp(rc.v) == Ordering::Less, "no chain a <= b <= c");
+            let _sep = nd::bool(); // keeps counterexample traces distinct from witness traces (playback dedupe)
             let le_ab = a <= b;
             let le_bc = b <= c;
             let le_ac = a <= c;
